@@ -289,7 +289,7 @@ def evaluate(case: dict[str, Any]) -> Outcome:
             for flag in explained:
                 out.fail(f"{direction}|{key[0]}|{flag}", detail)
         else:
-            out.fail(f"{direction}|{key[0]}|unexplained:flavor={e['flavor']},name={e['name_vis']},class={e['owner_vis']},vis={setting}", detail)
+            out.fail(f"{direction}|{key[0]}|unexplained:flavor={e['flavor']},name={e['name_vis']}", detail)
 
     must_not = len(uni) - len(e0) + sum(1 for b in desc["bindings"].values() if b[0] in ("stdlib", "module") or b[1].startswith("helper:"))
     out.nontrivial = len(e0) >= 3 and must_not >= 1
